@@ -192,7 +192,7 @@ def desc(tag, payload, pad=0):
     return bytes([tag]) + ln + payload
 
 
-def esds(aot=2, freq_index=3, chan=2, bitrate=128000, pad=0, explicit_freq=48000):
+def esds(aot=2, freq_index=3, chan=2, bitrate=128000, pad=0, explicit_freq=48000, es_flags=0):
     # AudioSpecificConfig (14496-3 1.6.2.1): audioObjectType 5 bits (31 = escape: + 6 bits), samplingFrequencyIndex 4 bits
     # (15 = escape: + 24 bits samplingFrequency), channelConfiguration 4 bits; padded with zero bits to a byte boundary
     bits = ""
@@ -208,12 +208,15 @@ def esds(aot=2, freq_index=3, chan=2, bitrate=128000, pad=0, explicit_freq=48000
     dsi = desc(5, asc, pad)
     dcd = desc(4, bytes([0x40, 0x15]) + (0).to_bytes(3, "big") + bitrate.to_bytes(4, "big") + bitrate.to_bytes(4, "big") + dsi, pad)
     slc = desc(6, b"\x02", pad)
-    es = desc(3, (1).to_bytes(2, "big") + b"\0" + dcd + slc, pad)
+    # ES_Descriptor (14496-1 7.2.6.5): ES_ID, flags byte; streamDependenceFlag 0x80 -> dependsOn_ES_ID(16); URL_Flag 0x40 -> URLlength(8) + URL;
+    # OCRstreamFlag 0x20 -> OCR_ES_Id(16); low 5 bits streamPriority
+    opt = (b"\x00\x07" if es_flags & 0x80 else b"") + (b"\x03abc" if es_flags & 0x40 else b"") + (b"\x00\x09" if es_flags & 0x20 else b"")
+    es = desc(3, (1).to_bytes(2, "big") + bytes([es_flags]) + opt + dcd + slc, pad)
     return full("esds", 0, 0, [Raw(es)])
 
 
-def mp4a(aot=2, freq_index=3, chan=2, bitrate=128000, samplerate=48000, pad=0, extra=()):
-    return Box("mp4a", [Raw(b"\0" * 6), F(2, 1), F(8, 0), F(2, chan), F(2, 16), F(4, 0), F(4, (samplerate & 0xffff) << 16)] + list(extra) + [esds(aot, freq_index, chan, bitrate, pad)])
+def mp4a(aot=2, freq_index=3, chan=2, bitrate=128000, samplerate=48000, pad=0, extra=(), es_flags=0):
+    return Box("mp4a", [Raw(b"\0" * 6), F(2, 1), F(8, 0), F(2, chan), F(2, 16), F(4, 0), F(4, (samplerate & 0xffff) << 16)] + list(extra) + [esds(aot, freq_index, chan, bitrate, pad, es_flags=es_flags)])
 
 
 def tx3g():
@@ -258,6 +261,8 @@ HANDLER = {"avc": "vide", "hevc": "vide", "vp9": "vide", "aac": "soun", "ttxt": 
 
 
 def sample_entry(kind, tr):
+    if tr.get("entry") is not None:
+        return tr["entry"]     # a sample entry box given directly
     if kind == "avc":
         return avc1(tr.get("w", 320), tr.get("h", 240))
     if kind == "hevc":
@@ -288,7 +293,7 @@ def stbl_of(tr):
 def trak_of(tr):
     kind = tr.get("kind", "avc")
     dur = tr.get("duration", 0)
-    minf_items = [vmhd() if HANDLER[kind] == "vide" else smhd() if kind == "aac" else None, dinf(), stbl_of(tr)]
+    minf_items = [vmhd() if HANDLER[kind] == "vide" else smhd() if kind == "aac" else None, tr.get("dinf") or dinf(), stbl_of(tr)]
     return Box("trak", [tkhd(tr["id"], dur, tr.get("w", 0), tr.get("h", 0), 1 if dur >= U32 else 0)] + list(tr.get("trak_before_mdia", ())) +
                [Box("mdia", [mdhd(tr.get("ts", 1000), dur, tr.get("lang", "und"), 1 if dur >= U32 else 0), hdlr(HANDLER[kind]),
                              Box("minf", [i for i in minf_items if i is not None])])] + list(tr.get("trak_extra", ())))
@@ -626,7 +631,8 @@ def build_fragmented(tracks, fragments, movie_ts=1000, trex_dur=0, extra_between
             if tf.get("trun", True):
                 k0 = tf.get("k0", 1)
                 for j, n in enumerate(tf["sizes"]):
-                    pl += sample_bytes(tf["track_id"] + 7 * fi, k0 + j, n)
+                    # data_cap: the run declares the full sizes, the file carries only the first data_cap bytes of each sample
+                    pl += sample_bytes(tf["track_id"] + 7 * fi, k0 + j, min(n, tf.get("data_cap", n)))
         media += struct.pack(">I4s", 0 if (last_mdat_to_eof and fi == len(fragments) - 1) else 8 + len(pl), b"mdat") + pl
         seq += 1
     pieces = runs.pop("_pieces", [])
